@@ -17,7 +17,7 @@ from vp.worker import run_segment
 BASE_PATHS = ["/" + "/".join(t) for n in (1, 2, 3) for t in itertools.product("ab", repeat=n)]
 CONFUSERS = ["/ab", "/a/ab", "/ab/b", "/abb"]
 PATHS = BASE_PATHS + CONFUSERS
-PLACEMENTS = ["top", "helper", "child", "two_modules", "data", "method"]
+PLACEMENTS = ["top", "helper", "child", "two_modules", "data", "method", "property"]
 
 
 def overlapping(paths):
@@ -56,11 +56,11 @@ def prog_paths(pkg, paths, placement):
             p["fns"][h]["stmts"] = keeps
             main = gen.add_fn(p, m1, "main")
             p["fns"][main]["stmts"] = [gen.s_call(h, [])]
-        elif placement == "method":
+        elif placement in ("method", "property"):
             # the first keep at top level, the others behind a method of a class (the method is not the first one of its class)
             h = gen.add_fn(p, m0, "helper")
             p["fns"][h]["stmts"] = keeps[1:]
-            cid = gen.add_cls(p, m0, "Job", const=4, calls=h)
+            cid = gen.add_cls(p, m0, "Job", const=4, calls=h, prop=placement == "property")
             main = gen.add_fn(p, m1, "main")
             p["fns"][main]["stmts"] = keeps[:1] + ([gen.s_method(cid, "1")] if len(keeps) > 1 else [])
         else:  # two_modules: first keep in a helper of module a0, the rest in main of module a1
@@ -123,7 +123,7 @@ def prog_cycle(pkg, edges, two_modules=False, builtin_names=False):
         elif e == "ref":
             f["stmts"] = [gen.s_ref(tgt)]
         else:
-            cid = gen.add_cls(p, m0, "Kc%d" % i, const=i, calls=tgt)
+            cid = gen.add_cls(p, m0, "Kc%d" % i, const=i, calls=tgt, prop=e == "property")
             f["stmts"] = [gen.s_method(cid, "1")]
     main = gen.add_fn(p, m0, "main")
     p["fns"][main]["stmts"] = [gen.s_call(fids[0], [])]
@@ -155,7 +155,7 @@ def prog_eval_in_eval(pkg, depth, via, spelling="dds.eval", two_modules=False):
         elif via == "keep":
             f["stmts"] = [gen.s_keep("/ev%d" % i, tgt, [])]
         else:
-            cid = gen.add_cls(p, m0, "Ke%d" % i, const=i, calls=tgt)
+            cid = gen.add_cls(p, m0, "Ke%d" % i, const=i, calls=tgt, prop=via == "property")
             f["stmts"] = [gen.s_method(cid, "1")]
     p["entry"] = chain[0]
     return p
@@ -311,13 +311,19 @@ def build_cases(tier, seed):
             if ln <= 3 or tier != "quick":
                 add("cycle", "CIRCULAR_CALL", prog_cycle("y%d" % n[0], list(edges), builtin_names=True), {"edges": list(edges), "names": "builtin-like"})
                 add("cycle", "CIRCULAR_CALL", localize(prog_cycle("y%d" % n[0], list(edges))), {"edges": list(edges), "imports": "function-local"})
+        # ... with one edge through a property that also has a setter (two functions of one name in the class body)
+        if ln <= 3:
+            for pos in range(ln):
+                edges = ["call"] * ln
+                edges[pos] = "property"
+                add("cycle", "CIRCULAR_CALL", prog_cycle("y%d" % n[0], edges), {"edges": edges})
         # ... and through two modules accepted one by one (their package is not), spelled by full dotted names
         add("cycle", "CIRCULAR_CALL", dotted(prog_cycle("y%d" % n[0], ["call"] * ln, two_modules=True)), {"edges": ["call"] * ln, "accepted": "modules-only", "modules": 2})
         # a cycle of plain calls through two modules that import each other inside the function bodies
         add("cycle", "CIRCULAR_CALL", localize(prog_cycle("y%d" % n[0], ["call"] * ln, two_modules=True), forms=True), {"edges": ["call"] * ln, "imports": "function-local", "modules": 2})
     # ---- eval in eval
     for depth in range(0, 5):
-        for via in ("call", "keep", "method"):
+        for via in ("call", "keep", "method", "property"):
             add("eval-in-eval", "EVAL_IN_EVAL", prog_eval_in_eval("v%d" % n[0], depth, via), {"depth": depth, "via": via})
             add("eval-in-eval", "EVAL_IN_EVAL", prog_eval_in_eval("v%d" % n[0], depth, via, "eval"), {"depth": depth, "via": via, "spelling": "from dds import eval"})
             add("eval-in-eval", "EVAL_IN_EVAL", localize(prog_eval_in_eval("v%d" % n[0], depth, via)), {"depth": depth, "via": via, "imports": "function-local"})
